@@ -33,6 +33,11 @@ theorem C08_gen_useJsonclassGates : Generated.useJsonclassGates = some JsonClass
 /-- `jsonrpc.loads` goes through `load` (and so through its gate). -/
 theorem C08_gen_loadsCallsLoad : Generated.loadsCallsLoad = some true := by decide
 
+/-- Every `return` of `jsonrpc.loads`: `None` for the empty text, `load(jloads(data), config)` for every other text — the raw
+    text is read by the emptiness test and by the JSON backend only (`Payload.loads`; C08_loads_spelling_independent is about
+    exactly this function). -/
+theorem C08_gen_loadsReturns : Generated.loadsReturns = some JsonClass.loadsReturns := by decide
+
 /-- `_marshaled_dispatch` calls `loads` inside `try/except Exception` and builds `Fault(-32700, …)` there. -/
 theorem C08_gen_loadsGuarded : Generated.loadsGuarded = some true ∧
     (Generated.faultSites.map fun l => l.contains ("_marshaled_dispatch", Server.codeParse)) = some true := by decide
